@@ -14,6 +14,7 @@ from facts import walk, callee
 from tree import strip, cname, pat_bindings
 from guards import conds_at, diverges
 from lib_rules import chain_root, impl_self_ty
+from core import Broken
 
 MERGE = 'merge_delta_to_total_new_to_delta'
 
@@ -453,3 +454,77 @@ def check_L29(ctx, rep, scope):
                          'the memo `%s` is tested against `%s`, filled by a lookup of `%s` and tagged with `%s`: a stale entry answers for another key' % (
                              slot.get('n'), k1.get('n'), k2.get('n'), k3.get('n')), loc=cr.loc(x))
     return n
+
+
+# ------------------------------------------------------------------ L30
+
+_ITER_METHODS = {'iter', 'keys', 'values', 'into_iter', 'iter_mut', 'drain', 'par_iter'}
+
+
+def check_L30(ctx, rep):
+    """complete registry: every scan of the union-find *total* (TrRelUnionFind::iter_all and the `Total` arms of the binary index's
+    ind0_iter_all / ind1_iter_all / iter_all) draws its outermost enumeration from a field that `add_node_new` writes. A node that
+    was registered with only its reflexive tuple (or whose class has no edge to another class) has no entry in the connection maps:
+    a scan that starts from those maps skips tuples that `contains` and the keyed lookups report."""
+    from byods_rules import _mutated_fields
+    cr = ctx.lib('ascent_byods_rels')
+    reg_b = cr.bodies.get('trrel_union_find::TrRelUnionFind::<T>::add_node_new')
+    if reg_b is None:
+        raise Broken('L30: TrRelUnionFind::add_node_new not found')
+    registry = _mutated_fields(cr, reg_b, reg_b['params'][0]['id'], depth=3) - {'<self>'}    # depth=3: own statements only, helpers not followed
+    if not registry:
+        raise Broken('L30: add_node_new writes no field?')
+    rep.functions.add(reg_b['path'])
+
+    def outermost_source(tree, root_ids):
+        best = None
+        for n, parents in walk(tree):
+            if n.get('k') != 'mcall' or n['m'] not in _ITER_METHODS:
+                continue
+            r = strip(n['r'])
+            while r.get('k') in ('addr', 'index') or (r.get('k') == 'unary' and r.get('op') == 'deref'):
+                r = strip(r['e'])
+            if r.get('k') != 'field':
+                continue
+            base = strip(r['e'])
+            while base.get('k') in ('addr',) or (base.get('k') == 'unary' and base.get('op') == 'deref'):
+                base = strip(base['e'])
+            if base.get('k') == 'path' and base.get('res') == 'local' and base['id'] in root_ids:
+                d = len(parents)
+                if best is None or d < best[0]:
+                    best = (d, r['n'], n)
+        return best
+
+    sites = []
+    b = cr.bodies.get('trrel_union_find::TrRelUnionFind::<T>::iter_all')
+    if b is None:
+        raise Broken('L30: TrRelUnionFind::iter_all not found')
+    sites.append((b, b['tree'], {b['params'][0]['id']}, 'iter_all'))
+    for path, bb in sorted(cr.bodies.items()):
+        if bb['name'] in ('ind0_iter_all', 'ind1_iter_all', 'iter_all') and 'trrel_union_find_binary_ind::TrRelIndCommon<T>' in impl_self_ty(bb):
+            for n, _ in walk(bb['tree']):
+                if n.get('k') != 'match':
+                    continue
+                for a in n['arms']:
+                    d = ((a['p'].get('path') or {}).get('d') or '') if isinstance(a['p'].get('path'), dict) else str(a['p'].get('path') or a['p'].get('d') or '')
+                    if not d.endswith('::Total'):
+                        continue
+                    ids = {x['id'] for x in pat_bindings(a['p'])}
+                    sites.append((bb, a['b'], ids, '%s (Total arm)' % bb['name']))
+    n_direct = 0
+    for b, tree, ids, what in sites:
+        rep.functions.add(b['path'])
+        src = outermost_source(tree, ids)
+        if src is None:
+            rep.inst('L30', '%s: delegates (no field of the union-find is enumerated here)' % what)
+            continue
+        n_direct += 1
+        ok = src[1] in registry
+        rep.inst('L30', '%s: enumerates from `%s` (registry fields %s): %s' % (what, src[1], sorted(registry), ok))
+        if not ok:
+            rep.viol('L30', b['path'], 'scan-source:%s' % src[1],
+                     'a scan of the union-find total enumerates from `%s`, which add_node_new does not write (registry: %s): a class with '
+                     'no entry there - e.g. a node known only by its reflexive tuple - is skipped by the scan although lookups find it'
+                     % (src[1], sorted(registry)), loc=cr.loc(src[2]))
+    if n_direct < 3:
+        raise Broken('L30: only %d scans of the union-find total recognised (3 confirmed by reading)' % n_direct)
